@@ -1,8 +1,13 @@
 """Baton-passing deterministic scheduler (DESIGN.md 2.3): real OS threads, but exactly one runs at a time and every
 hand-over is a recorded decision drawn from the run's PRNG (or replayed from a list).  SimThread / SimQueue / clock
 stand in for threading.Thread / queue.Queue / time inside py7zr."""
+import os as _os
 import queue as _queue
 import threading
+
+from .seams import REPO as _REPO
+
+_PY7ZR_PREFIX = _os.path.join(_os.path.realpath(_REPO), "py7zr") + _os.sep
 
 
 class SimKill(BaseException):
@@ -47,6 +52,36 @@ class Scheduler:
         self.lock = threading.Lock()
         if self.strategy["kind"] == "pct":
             self._pct_points = set(self.strategy.get("points", []))
+        # optional line-level pre-emption (thorough tier): every 'line' event in a py7zr frame of a simulated thread is a
+        # potential yield point, taken with probability line_p (seeded) or at the recorded counters (replay)
+        self.line_p = float(self.strategy.get("line_p", 0.0))
+        self.line_replay = set(self.strategy["line_yields"]) if self.strategy.get("line_yields") is not None else None
+        self.line_counter = 0
+        self.line_yields = []
+        self._line_rng = None
+        if self.line_p and rng is not None:
+            self._line_rng = rng.sub("line") if hasattr(rng, "sub") else rng
+
+    # -- line-level pre-emption ---------------------------------------------------------------------
+    def tracing(self):
+        return bool(self.line_p or self.line_replay)
+
+    def _trace_global(self, frame, event, arg):
+        if frame.f_code.co_filename.startswith(_PY7ZR_PREFIX):
+            return self._trace_local
+        return None
+
+    def _trace_local(self, frame, event, arg):
+        if event == "line" and not self.poison:
+            self.line_counter += 1
+            if self.line_replay is not None:
+                do = self.line_counter in self.line_replay
+            else:
+                do = self._line_rng is not None and self._line_rng.random() < self.line_p
+            if do:
+                self.line_yields.append(self.line_counter)
+                self.yield_(("line", frame.f_lineno))
+        return self._trace_local
 
     # -- bookkeeping -----------------------------------------------------------------------------
     def log(self, tag):
@@ -197,6 +232,10 @@ class Scheduler:
             try:
                 if self.poison:
                     return
+                if self.tracing():
+                    import sys as _sys
+
+                    _sys.settrace(self._trace_global)
                 target(*args, **(kwargs or {}))
             except SimKill:
                 pass
